@@ -14,6 +14,7 @@ COk(c, r) ==
   CASE r.f = "reset" -> TRUE
     [] r.f = "inc" -> AsState(r) = IncOf(c) /\ r.r = Slot24(c.cnt + 1) /\ r.rev = r.r
     [] r.f = "dec" -> c.cnt > 0 /\ AsState(r) = DecOf(c) /\ r.r = c.rev /\ r.r = Slot24(c.cnt) /\ r.rev = Slot24(c.cnt - 1)
+    [] r.f = "jump" -> r.cnt >= c.cnt /\ r.cnt >= 1 /\ r.rev = Slot24(r.cnt) /\ r.hb = H24(r.cnt)   \* state after unrecorded increments, closed form
     [] r.f = "prefix" -> LET S == { r.slots[j] : j \in 1..Len(r.slots) } IN
                          IF S = 1..r.n THEN TRUE
                          ELSE IF Len(r.slots) = r.n /\ \A j \in 1..r.n : r.slots[j] = Slot24(j) THEN PrintT(<<"LITERAL", r.n>>)
